@@ -114,7 +114,7 @@ def _rules():
             lambda R, c, rid: preds.rule(R, c, rid, ["map_contains_key"]),
         ],
         "block-wire": [
-            lambda R, c, rid: wire_rules._wire(R, c, rid, ["Block", "Update", "IdSet", "IdRanges", "Range"]),
+            lambda R, c, rid: wire_rules._wire(R, c, rid, ["Block", "Update", "IdSet", "IdRanges", "Range", "Options"]),
             lambda R, c, rid: shared.string_column_units(R, c, rid),
             lambda R, c, rid: accessors.options_codec(R, c, rid),
             lambda R, c, rid: c09_prims.rule_json(R, c, rid),
